@@ -116,8 +116,8 @@ static bool extra(const std::vector<std::string>& t, const std::vector<std::stri
   if (op == "rows") {
     int ds = atoi(t.at(1).c_str()); mjModel* m = MD(ds); mjData* d = D(ds);
     int pyr = mj_isPyramidal(m);
-    printf("[{\"op\":\"begin\",\"ne\":%d,\"nf\":%d,\"nl\":%d,\"nefc\":%d,\"ncon\":%d,\"cone\":%d,\"solver\":%d}",
-           d->ne, d->nf, d->nl, d->nefc, d->ncon, pyr ? 0 : 1, m->opt.solver);
+    printf("[{\"op\":\"begin\",\"ne\":%d,\"nf\":%d,\"nl\":%d,\"nefc\":%d,\"ncon\":%d,\"cone\":%d,\"solver\":%d,\"nisland\":%d}",
+           d->ne, d->nf, d->nl, d->nefc, d->ncon, pyr ? 0 : 1, m->opt.solver, d->nisland);
     for (int i = 0; i < d->nefc; i++) {
       int ty = d->efc_type[i], id = d->efc_id[i];
       double f = d->efc_force[i];
@@ -126,6 +126,9 @@ static bool extra(const std::vector<std::string>& t, const std::vector<std::stri
       print_key("f", f);
       if (ty == mjCNSTR_FRICTION_DOF || ty == mjCNSTR_FRICTION_TENDON) {
         print_key("hi", d->efc_frictionloss[i]); print_key("lo", -d->efc_frictionloss[i]);
+        // diagnostics for the vacuity guards (not judged): island of the row, at or beyond its bound
+        printf(",\"isl\":%d,\"sat\":%d", (d->nisland > 0 && d->efc_island) ? d->efc_island[i] : -1,
+               fabs(f) >= d->efc_frictionloss[i] ? 1 : 0);
       }
       if (ty >= mjCNSTR_CONTACT_FRICTIONLESS && id >= 0 && id < d->ncon) {
         const mjContact& c = d->contact[id];
